@@ -39,12 +39,12 @@ struct Conn {
     mode: u32,
 }
 
-fn start_conn(cx: &mut Ctx, token: Token, mode: u32) -> Conn {
+fn start_conn(cx: &mut Ctx, token: Token, mode: u32, peer_stays: bool) -> Conn {
     // mode 0: client closes at once; 1: one request (keep-conn bit chosen); 2: handler panics
     let mut wire = Vec::new();
     if mode > 0 {
         let role = cx.ch.one_of(&[RESPONDER, FILTER, AUTHORIZER]);
-        let keep = cx.ch.pick(2) as u8;
+        let keep = if peer_stays { 1 } else { cx.ch.pick(2) as u8 };
         begin(1, role, keep, 0).encode(&mut wire);
         Rec::new(PARAMS, 1, Vec::new(), 0).encode(&mut wire);
         for &s in role_streams(role) {
@@ -60,7 +60,8 @@ fn start_conn(cx: &mut Ctx, token: Token, mode: u32) -> Conn {
     // peer sends the request in up to two bursts
     let cut = if wire.is_empty() { 0 } else { cx.ch.range(0, wire.len()) };
     let segs = vec![Seg { end: cut, gate: Gate::Open }, Seg { end: wire.len(), gate: Gate::Open }];
-    let world = World::new(sub, knobs, wire, segs);
+    let mut world = World::new(sub, knobs, wire, segs);
+    world.close_when_done = !peer_stays;
     let shared: Shared = Arc::new(Mutex::new(world));
     let mut ex = Exec::new(shared.clone());
     if mode == 2 {
@@ -260,7 +261,7 @@ pub fn c13(cx: &mut Ctx) -> VResult {
                 let j = cx.ch.pick(tokens.len() as u32) as usize;
                 let (t, tr) = tokens.remove(j);
                 let mode = cx.ch.weighted(&[1, 4, 1]) as u32;
-                let mut c = start_conn(cx, t, mode);
+                let mut c = start_conn(cx, t, mode, false);
                 c.runner = tr;
                 history.push(format!("start_conn(mode {mode})"));
                 cx.ev("start_conn", u64::from(mode), 0);
@@ -378,5 +379,91 @@ pub fn c13(cx: &mut Ctx) -> VResult {
     if cx.want_sample {
         cx.sample = Some(format!("limit={limit} history: {}", history.join(" ")));
     }
+    Ok(())
+}
+
+
+pub const C14M_PROBES: &[&str] = &["multi_idle_conns_woken", "multi_conn_mid_request_at_shutdown", "multi_shutdown_ready"];
+
+/// C14 with several live connections: all idle keep-alive connections (peers stay connected) must be
+/// woken by one shutdown request and stop; the shutdown future completes after the last of them.
+pub fn c14_multi(cx: &mut Ctx) -> VResult {
+    cx.declare(C13_FAULTS, C14M_PROBES);
+    let n = 1 + cx.ch.weighted(&[1, 3, 3, 1]);
+    let cfg = config(64, n + cx.ch.pick(2) as usize);
+    let runner = cfg.async_runner();
+    let mut conns: Vec<Conn> = Vec::new();
+    for _ in 0..n {
+        let fut = runner.get_token();
+        futures_util::pin_mut!(fut);
+        let w = Waker::from(WakeFlag::new(false));
+        let mut c = Context::from_waker(&w);
+        let Poll::Ready(t) = fut.poll(&mut c) else { panic!("harness: token not ready") };
+        conns.push(start_conn(cx, t, 1, true));
+    }
+    cx.nontrivial = true;
+    // advance the connections for a while (some finish their request and go idle, some are mid-request)
+    let rounds = cx.ch.range(0, 40);
+    for _ in 0..rounds {
+        let i = cx.ch.pick(conns.len() as u32) as usize;
+        let k = cx.ch.range(1, 30) as u64;
+        conns[i].ex.budget = Some(k);
+        let _ = conns[i].ex.run(&mut |_, _| Vec::new());
+        cx.ev("step_conn", i as u64, k);
+    }
+    let mut idle = 0;
+    for c in &conns {
+        let g = lock(&c.shared);
+        vcheck!(!c.ex.tasks[0].done(), "c14_conn_ended_early", "a keep-alive connection whose peer stays connected ended before shutdown");
+        if !g.handler_log.is_empty() && g.handler_log.iter().all(|h| h.finished) && g.end_requests >= g.handler_log.len() { idle += 1; } else { cx.probe("multi_conn_mid_request_at_shutdown"); }
+    }
+    let flag = WakeFlag::new(false);
+    let mut sfut: Pin<Box<dyn Future<Output = ()>>> = Box::pin(runner.shutdown());
+    cx.ev("shutdown", idle as u64, n as u64);
+    {
+        let w = Waker::from(flag.clone());
+        let mut c = Context::from_waker(&w);
+        vcheck!(sfut.as_mut().poll(&mut c).is_pending(), "c14_shutdown_ready_early", "shutdown future Ready while {n} connection tokens are alive");
+    }
+    // run every connection until nothing is enabled any more (strict executor: only woken tasks are polled)
+    let order: Vec<usize> = { let mut o: Vec<usize> = (0..conns.len()).collect(); for i in (1..o.len()).rev() { let j = cx.ch.pick(i as u32 + 1) as usize; o.swap(i, j); } o };
+    for &i in &order {
+        let before_handlers = lock(&conns[i].shared).handler_log.len();
+        conns[i].ex.budget = None;
+        let end = conns[i].ex.run(&mut |_, _| Vec::new());
+        vcheck!(matches!(end, RunEnd::Quiescent), "hang", "connection {i} did not settle after shutdown");
+        let g = lock(&conns[i].shared);
+        if !conns[i].ex.tasks[0].done() {
+            vfail!("c14_connection_not_stopped", "multi", "connection {i} of {n} was not woken / did not stop after shutdown (handlers {}, suspended on read: {})", g.handler_log.len(), g.read_waker.is_some());
+        }
+        if let Some(p) = &conns[i].ex.tasks[0].panicked { vfail!("panic", "Token::run", "{p}"); }
+        vcheck!(g.handler_log.iter().all(|h| h.finished), "c14_request_not_completed", "connection {i}: a handler was left unfinished");
+        vcheck!(g.handler_log.len() <= before_handlers.max(1), "c14_handler_started_after_shutdown", "connection {i}: a new handler started after shutdown");
+        vcheck!(g.end_requests >= g.handler_log.iter().filter(|h| h.status.as_deref().map_or(false, |s| !s.starts_with("err:"))).count(), "c14_request_not_completed", "connection {i}: started request has no EndRequest");
+        if idle > 0 { cx.probe("multi_idle_conns_woken"); }
+        drop(g);
+        // the shutdown future stays Pending until the last connection is gone
+        let last = order.iter().all(|&j| conns[j].ex.tasks[0].done());
+        let w = Waker::from(flag.clone());
+        let mut c = Context::from_waker(&w);
+        let wakes_before = flag.wakes();
+        let _ = wakes_before;
+        let r = sfut.as_mut().poll(&mut c);
+        if last {
+            vcheck!(flag.wakes() > 0, "c14_shutdown_not_woken", "all connections stopped but the shutdown future's waker never fired");
+            vcheck!(r.is_ready(), "c14_shutdown_not_ready", "all connections stopped but the shutdown future is Pending");
+            cx.probe("multi_shutdown_ready");
+        } else {
+            vcheck!(r.is_pending(), "c14_shutdown_ready_early", "shutdown future Ready while connections are still alive");
+        }
+    }
+    for c in conns {
+        let Conn { ex, shared, .. } = c;
+        drop(ex);
+        let g = lock(&shared);
+        cx.st.merge(&g.cx.st);
+        cx.digest = fnv_u64(g.cx.digest, cx.digest);
+    }
+    if cx.want_sample { cx.sample = Some(format!("{n} keep-alive connections, {idle} idle at shutdown, {rounds} stepping rounds before")); }
     Ok(())
 }
